@@ -365,6 +365,64 @@ fn gen_scenario(t: &mut Tape, mut ctx: Option<&mut Ctx>) -> Scenario {
 
 // ------------------------------------------------------------------------------------------------
 
+/// Which protocol numbers are extension headers - the tables every walker keys on - for all 256 numbers:
+/// `Ipv6RawExtHeader(Slice)::header_type_supported` (generic 8-octet-unit layout: 0, 43, 60, 135, 139,
+/// 140), `Ipv6Header::is_skippable_header_extension` (those + fragment 44 + AH 51),
+/// `IpNumber::is_ipv6_ext_header_value` (the IANA list: those + ESP 50 + experimental 253/254), and the
+/// skip functions behave accordingly on a complete 16-byte header: skipped iff skippable.
+fn number_tables(ctx: &mut Ctx) -> Result<(), Failure> {
+    use etherparse::*;
+    const RAW: [u8; 6] = [0, 43, 60, 135, 139, 140];
+    const SKIP: [u8; 8] = [0, 43, 44, 51, 60, 135, 139, 140];
+    const IANA: [u8; 11] = [0, 43, 44, 50, 51, 60, 135, 139, 140, 253, 254];
+    // next header 59, length byte 0 (AH: payload len 2 = 16 bytes)
+    for n in 0..=255u8 {
+        ctx.eval(1);
+        let mut buf = [0u8; 16];
+        buf[0] = 59;
+        buf[1] = if n == 51 { 2 } else { 1 };
+        let r = catch(|| {
+            let mut bad: Vec<String> = vec![];
+            let num = IpNumber(n);
+            if Ipv6RawExtHeader::header_type_supported(num) != RAW.contains(&n) || Ipv6RawExtHeaderSlice::header_type_supported(num) != RAW.contains(&n) {
+                bad.push(format!("header_type_supported({}) = {} / {}", n, Ipv6RawExtHeader::header_type_supported(num), Ipv6RawExtHeaderSlice::header_type_supported(num)));
+            }
+            if Ipv6Header::is_skippable_header_extension(num) != SKIP.contains(&n) {
+                bad.push(format!("is_skippable_header_extension({}) = {}", n, Ipv6Header::is_skippable_header_extension(num)));
+            }
+            if num.is_ipv6_ext_header_value() != IANA.contains(&n) {
+                bad.push(format!("IpNumber({}).is_ipv6_ext_header_value() = {}", n, num.is_ipv6_ext_header_value()));
+            }
+            let want_len = if !SKIP.contains(&n) { 0 } else if n == 44 { 8 } else { 16 };
+            match Ipv6Header::skip_header_extension_in_slice(&buf, num) {
+                Ok((next, rest)) => {
+                    if buf.len() - rest.len() != want_len || next != if want_len > 0 { IpNumber(59) } else { num } {
+                        bad.push(format!("skip_header_extension_in_slice({}) consumed {} bytes, next {:?}", n, buf.len() - rest.len(), next));
+                    }
+                }
+                Err(e) => bad.push(format!("skip_header_extension_in_slice({}) failed on a complete header: {:?}", n, e)),
+            }
+            let mut c = std::io::Cursor::new(&buf[..]);
+            match Ipv6Header::skip_header_extension(&mut c, num) {
+                Ok(next) => {
+                    if c.position() as usize != want_len || next != if want_len > 0 { IpNumber(59) } else { num } {
+                        bad.push(format!("skip_header_extension(reader, {}) consumed {} bytes, next {:?}", n, c.position(), next));
+                    }
+                }
+                Err(e) => bad.push(format!("skip_header_extension(reader, {}) failed on a complete header: {:?}", n, e)),
+            }
+            bad
+        });
+        match r {
+            Ok(bad) if bad.is_empty() => {}
+            Ok(bad) => return ctx.fail(Failure::new(format!("C12|number-tables|ip-number|{}", if bad[0].starts_with("skip") { "skip-follows-the-table" } else { "classification" }), "the extension-number tables the walkers key on agree with the formats and with each other", bad.join("; "), json!({"k": "number_tables", "n": n}))),
+            Err(p) => return ctx.fail(Failure::new("C12|number-tables|panic".to_string(), "panic", p, json!({"k": "number_tables", "n": n}))),
+        }
+    }
+    ctx.class("number-tables:all-256");
+    Ok(())
+}
+
 impl Property for C12 {
     fn id(&self) -> &'static str {
         ID
@@ -393,6 +451,9 @@ impl Property for C12 {
     }
 
     fn exhaustive(&self, tier: Tier, shard: u64, nshards: u64, ctx: &mut Ctx) -> Result<(), Failure> {
+        if shard == 0 {
+            number_tables(ctx)?;
+        }
         // small enumerations first (complete in both tiers)
         for (j, sc) in small_scenarios().iter().enumerate() {
             if j as u64 % nshards == shard {
@@ -416,6 +477,9 @@ impl Property for C12 {
     }
 
     fn replay(&self, input: &Value, ctx: &mut Ctx) -> Result<(), Failure> {
+        if input.get("k").and_then(|x| x.as_str()) == Some("number_tables") {
+            return number_tables(ctx);
+        }
         // crash attribution of the enumerated part: {"exh": [index, part]}
         if let Some(a) = input.get("exh").and_then(|x| x.as_array()) {
             let i = a.first().and_then(|x| x.as_u64()).unwrap_or(0);
